@@ -362,6 +362,32 @@ impl Pki {
         let pem = std::fs::read(self.dir.join(src)).expect("tool: read CA PEM");
         std::fs::write(self.dir.join(file), pem).expect("tool: overwrite CA bundle in place");
     }
+    /// Overwrites `file` IN PLACE (open + truncate + write) with content that yields NO CA certificate, as an
+    /// interrupted or mistaken renewal of the bundle does. `how` picks one of four: an empty file, a PEM private key
+    /// (the key of the trusted client certificate), the PEM certificate of the trusted CA cut in half, random bytes.
+    /// Returns the name of what was written.
+    fn break_ca(&self, file: &str, how: u64) -> &'static str {
+        let (name, content): (&'static str, Vec<u8>) = match how % 4 {
+            0 => ("empty", Vec::new()),
+            1 => ("key", std::fs::read(self.dir.join("cli_trustedCA.key")).expect("tool: read key PEM")),
+            2 => {
+                let pem = std::fs::read(self.dir.join("ca_trusted.pem")).expect("tool: read CA PEM");
+                ("truncated", pem[..pem.len() / 2].to_vec())
+            }
+            _ => {
+                let mut x = splitmix(how ^ self.index);
+                let bytes = (0..96)
+                    .map(|_| {
+                        x = splitmix(x);
+                        (x >> 24) as u8
+                    })
+                    .collect();
+                ("random", bytes)
+            }
+        };
+        std::fs::write(self.dir.join(file), content).expect("tool: overwrite CA bundle in place");
+        name
+    }
     fn install_ident(&self, v: usize) {
         self.ensure_ident(v);
         std::fs::copy(self.dir.join(format!("ident_v{v}.crt")), self.dir.join("live.crt")).expect("tool: copy");
@@ -857,20 +883,81 @@ async fn run_script(pki: &Pki, s: &Value, out: &mut Vec<Value>) {
     let (mut ca_gen, mut ca_loaded) = (0usize, 0usize);
     pki.install_ident(0);
     pki.install_ca(CLIENT_CA_LIVE, 0);
-    let identity = match make_tls_identity(&live_crt, &live_key, sca.as_deref()).await {
-        Ok(i) => i,
-        Err(e) => {
-            out.push(json!({"ev": "step", "id": id, "i": 0, "op": "init", "conn": 0, "res": "err", "err": format!("{e:?}")}));
-            return;
+    // which kind of junk the n-th botch of this script writes: all four kinds come round over the scripts
+    let junk_base = id.as_u64().unwrap_or(0);
+    let mut botched = 0usize;
+    // the client CA bundle at the path is junk (written by "botch" / "badstart"); the next "reload" restores it first
+    let mut ca_broken = false;
+    // a script may BEGIN with a start-up on an unusable client CA bundle ("badstart"): if that yields a server, the
+    // script goes on with THAT server; if it is refused, the bundle is repaired and the server started as usual
+    let mut identity = None;
+    let mut badstart = None;
+    if mtls && ops.first().is_some_and(|o| o["op"] == "badstart") {
+        let junk = pki.break_ca(CLIENT_CA_LIVE, junk_base);
+        match make_tls_identity(&live_crt, &live_key, sca.as_deref()).await {
+            Ok(i) => {
+                identity = Some(i);
+                ca_broken = true;
+                badstart = Some(json!({"res": "ok", "err": "", "junk": junk}));
+            }
+            Err(e) => {
+                badstart = Some(json!({"res": "err", "err": format!("{e:?}"), "junk": junk}));
+                pki.install_ca(CLIENT_CA_LIVE, 0);
+            }
         }
+    }
+    let identity = match identity {
+        Some(i) => i,
+        None => match make_tls_identity(&live_crt, &live_key, sca.as_deref()).await {
+            Ok(i) => i,
+            Err(e) => {
+                out.push(json!({"ev": "step", "id": id, "i": 0, "op": "init", "conn": 0, "res": "err", "err": format!("{e:?}")}));
+                return;
+            }
+        },
     };
     let mut conns: Vec<Option<(ClientStream, ServerStream)>> = Vec::new();
     for (i, op) in ops.iter().enumerate() {
         let kind = op["op"].as_str().expect("tool: op");
         let conn = op["conn"].as_u64().unwrap_or(0) as usize;
         let mut line = json!({"ev": "step", "id": id, "i": i + 1, "op": kind, "conn": conn, "mtls": mtls,
-                              "ca_gen": ca_gen, "ca_loaded": ca_loaded});
+                              "ca_gen": ca_gen, "ca_loaded": ca_loaded, "botched": botched, "ca_broken": ca_broken});
         match kind {
+            "badstart" => {
+                // (executed above, before the server existed)
+                let b = badstart.take().expect("tool: badstart is the first operation of a mutual-TLS script");
+                line = merge(line, &b);
+                line["cause"] = json!("ca");
+                line["path"] = json!(CLIENT_CA_LIVE);
+            }
+            "botch" => {
+                // a reload request that finds the client CA bundle unusable: the file at the configured path is
+                // overwritten in place with junk, certificate and key stay as they are, reload_tls_identity is called
+                assert!(op["cause"] == "ca" && mtls, "tool: a duplex botch is one of the client CA bundle");
+                botched += 1;
+                let junk = pki.break_ca(CLIENT_CA_LIVE, junk_base + botched as u64);
+                ca_broken = true;
+                let r = {
+                    let identity = identity.clone();
+                    let (a, b, c) = (live_crt.clone(), live_key.clone(), sca.clone());
+                    tokio::spawn(tokio::time::timeout(STEP_TIMEOUT, async move {
+                        reload_tls_identity(&identity, &a, &b, c.as_deref()).await
+                    }))
+                    .await
+                };
+                let (res, err) = match r {
+                    Ok(Ok(Ok(()))) => ("ok", String::new()),
+                    Ok(Ok(Err(e))) => ("err", format!("{e:?}")),
+                    Ok(Err(_)) => ("timeout", String::new()),
+                    Err(e) => (if e.is_panic() { "panic" } else { "cancelled" }, e.to_string()),
+                };
+                line["res"] = json!(res);
+                line["err"] = json!(err);
+                line["n"] = json!(botched);
+                line["cause"] = json!("ca");
+                line["junk"] = json!(junk);
+                line["path"] = json!(CLIENT_CA_LIVE);
+            }
             "connect" => {
                 // without "cc": the client that was set up for this server (scripts without rotation)
                 let cc = op["cc"].as_str().unwrap_or(if mtls { "trustedCA" } else { "none" }).to_string();
@@ -920,6 +1007,11 @@ async fn run_script(pki: &Pki, s: &Value, out: &mut Vec<Value>) {
             "reload" => {
                 version += 1;
                 ca_loaded = ca_gen;
+                if ca_broken {
+                    // the operator restores the bundle (the generation that was at the path) before this reload
+                    pki.install_ca(CLIENT_CA_LIVE, ca_gen);
+                    ca_broken = false;
+                }
                 pki.install_ident(version);
                 let r = {
                     let identity = identity.clone();
@@ -1069,6 +1161,8 @@ const RELOAD_DEADLINE: Duration = Duration::from_secs(30);
 /// RELOAD_DEADLINE per script
 const RELOAD_DEADLINE_AFTER_STALE: Duration = Duration::from_secs(2);
 static STALE_SEEN: std::sync::atomic::AtomicBool = std::sync::atomic::AtomicBool::new(false);
+/// after SIGUSR1 with an unusable client CA bundle: time given to the server's reload task before the next operation
+const BOTCH_SETTLE: Duration = Duration::from_millis(40);
 const PORT_ATTEMPTS: usize = 8;
 /// the server's --timeout (idle HTTP connections are closed after it): far above anything a script takes
 const SERVER_TIMEOUT_SECS: u64 = 900;
@@ -1332,6 +1426,9 @@ async fn real_script(pki: &Pki, s: &Value, out: &mut Vec<Value>) -> RealEnd {
     let mut version = 0usize;
     let (mut ca_gen, mut ca_loaded) = (0usize, 0usize);
     let mut botched = 0usize;
+    // which kind of junk the n-th botched client CA bundle of this script is; the bundle at the path is junk
+    let junk_base = id.as_u64().unwrap_or(0);
+    let mut ca_broken = false;
     pki.install_ident(0);
     // --tls-ca: ONE path for the whole script (and every script of this process), generation 0 to begin with
     pki.install_ca(CLIENT_CA_LIVE, 0);
@@ -1392,21 +1489,37 @@ async fn real_script(pki: &Pki, s: &Value, out: &mut Vec<Value>) -> RealEnd {
         let kind = op["op"].as_str().expect("tool: op");
         let conn = op["conn"].as_u64().unwrap_or(0) as usize;
         let mut line = json!({"ev": "rstep", "id": id, "i": i + 1, "op": kind, "conn": conn, "mtls": mtls, "reloads": version,
-                              "ca_gen": ca_gen, "ca_loaded": ca_loaded, "botched": botched});
+                              "ca_gen": ca_gen, "ca_loaded": ca_loaded, "botched": botched, "ca_broken": ca_broken});
         match kind {
             "botch" => {
-                // an incomplete renewal: the key file is unusable when the reload is requested. There is nothing to
-                // wait for but the delivery of the signal: whether the server has already tried (and failed) or not,
-                // it serves the identity installed last; the next "reload" writes a complete identity again.
+                // an incomplete renewal: the key file (cause "key", the default) or the client CA bundle (cause "ca") is
+                // unusable when the reload is requested. There is nothing to wait for but the delivery of the signal:
+                // whether the server has already tried (and failed) or not, it serves the identity installed last; the
+                // next "reload" writes a complete identity again (and restores the bundle).
                 botched += 1;
-                std::fs::write(pki.dir.join("live.key"), "-----BEGIN NOTHING-----\nAAAA\n-----END NOTHING-----\n")
-                    .expect("tool: overwrite key file");
+                let cause = op["cause"].as_str().unwrap_or("key").to_string();
+                let junk = if cause == "ca" {
+                    assert!(mtls, "tool: a botched client CA bundle needs a server with --tls-ca");
+                    ca_broken = true;
+                    pki.break_ca(CLIENT_CA_LIVE, junk_base + botched as u64)
+                } else {
+                    std::fs::write(pki.dir.join("live.key"), "-----BEGIN NOTHING-----\nAAAA\n-----END NOTHING-----\n")
+                        .expect("tool: overwrite key file");
+                    "nokey"
+                };
+                line["cause"] = json!(cause);
+                line["junk"] = json!(junk);
                 // SAFETY: plain libc call; a handler for SIGUSR1 is installed (own_usr1 above)
                 let rc = unsafe { libc::kill(libc::getpid(), libc::SIGUSR1) };
                 assert!(rc == 0, "tool: kill(getpid(), SIGUSR1) failed");
                 match tokio::time::timeout(SIGNAL_DEADLINE, own_usr1.recv()).await {
                     Ok(Some(())) => {}
                     _ => panic!("tool: SIGUSR1 was raised but not delivered to this process's listeners within {SIGNAL_DEADLINE:?}"),
+                }
+                if cause == "ca" {
+                    // no judgement, only time for the server's reload task to read the three files (a connect that
+                    // comes before it did is served by the previous configuration, as the property demands anyway)
+                    tokio::time::sleep(BOTCH_SETTLE).await;
                 }
                 line["res"] = json!("signalled");
                 line["n"] = json!(botched);
@@ -1453,6 +1566,11 @@ async fn real_script(pki: &Pki, s: &Value, out: &mut Vec<Value>) -> RealEnd {
             "reload" => {
                 version += 1;
                 ca_loaded = ca_gen;
+                if ca_broken {
+                    // the operator restores the bundle (the generation that was at the path) before this reload
+                    pki.install_ca(CLIENT_CA_LIVE, ca_gen);
+                    ca_broken = false;
+                }
                 pki.install_ident(version);
                 // the probes present what the NEW configuration must accept: the certificate of the CA generation at
                 // the configured path (nothing without mutual TLS)
